@@ -49,6 +49,7 @@ type Op struct {
 	Acc int     `json:"acc,omitempty"` // accused SP (+1)
 	Mis string  `json:"mis,omitempty"` // fault report mismatch kind
 	Dup int     `json:"dup,omitempty"` // deliver the same tx bytes again this many times
+	Slot int    `json:"slot,omitempty"` // complete/migrate: act as the holder of the Slot-th open (resp. completed) shard of the data
 	Note string `json:"note,omitempty"`
 }
 
@@ -144,6 +145,44 @@ func (e *Env) jws(signer *Actor, p marshaler, tam string, alt marshaler) saotype
 		s.Signature = string(b)
 	}
 	return s
+}
+
+// holderOf returns the actor holding the slot-th (1-based, modulo) open (waiting or
+// migrating) shard — or completed shard — among the orders of data d, in order/shard id order.
+func (e *Env) holderOf(d *DataInfo, slot int, completed bool) *Actor {
+	s := e.Cur
+	m, ok := s.Model.Metas[d.DataId]
+	if !ok {
+		return nil
+	}
+	seen := map[uint64]bool{}
+	var hs []*Actor
+	for _, oid := range append([]uint64{m.OrderId}, m.Orders...) {
+		if seen[oid] {
+			continue
+		}
+		seen[oid] = true
+		o, ok := s.Order.Orders[oid]
+		if !ok {
+			continue
+		}
+		for _, sid := range o.Shards {
+			sh, ok := s.Order.Shards[sid]
+			if !ok {
+				continue
+			}
+			open := sh.Status == ordertypes.ShardWaiting || sh.Status == ordertypes.ShardMigrating
+			if (completed && sh.Status == ordertypes.ShardCompleted) || (!completed && open) {
+				if a := e.W.ByAddr[sh.Sp]; a != nil {
+					hs = append(hs, a)
+				}
+			}
+		}
+	}
+	if len(hs) == 0 {
+		return nil
+	}
+	return hs[(slot-1)%len(hs)]
 }
 
 // orderOf selects an order of data d per selector w.
@@ -269,6 +308,13 @@ func (e *Env) build(op *Op) (*Built, string) {
 		return &Built{Msgs: []sdk.Msg{saotypes.NewMsgReady(a.AddrS, o.Id, prov.AddrS)}, Signer: a, Info: fmt.Sprintf("order=%d", o.Id)}, ""
 	case "complete":
 		d := e.data(op.D)
+		if op.Slot > 0 {
+			if h := e.holderOf(d, op.Slot, false); h != nil {
+				a = h
+			} else {
+				return nil, "no-open-shard"
+			}
+		}
 		prov := e.ref(op.Prov, a)
 		// find an order of the data in which prov has an open shard; fall back to selector
 		var target *ordertypes.Order
@@ -368,6 +414,13 @@ func (e *Env) build(op *Op) (*Built, string) {
 		return &Built{Msgs: []sdk.Msg{saotypes.NewMsgRenew(a.AddrS, &p, &sig, prov.AddrS)}, Signer: a,
 			Auth: &AuthTruth{SignerDid: signer.Did, Intact: op.Tam == "", DataIds: ids, Kind: "renew"}}, ""
 	case "migrate":
+		if op.Slot > 0 && len(op.Ds) > 0 {
+			if h := e.holderOf(e.data(op.Ds[0]), op.Slot, true); h != nil {
+				a = h
+			} else {
+				return nil, "no-completed-shard"
+			}
+		}
 		prov := e.ref(op.Prov, a)
 		var ids []string
 		for _, di := range op.Ds {
